@@ -25,7 +25,7 @@ PARALLEL = 8
 IMPORTS = "From Verif Require Import C02.Model C02.Spec C02.Corr.\nFrom VerifGen Require Import C02Base."
 CASE_TYPE = "C02.Corr.group"
 RUNNER = {"v0": "C02.Corr.run_v0", "v1": "C02.Corr.run_v1"}.get(os.environ.get("VERIF_C02_MODEL"), "C02.Corr.run")
-FINDING_CLASSES = {1: "C02-F1", 2: "C02-F2", 3: "C02-F3"}   # all fixed: a case in any class is a VIOLATION
+FINDING_CLASSES = {1: "C02-F1", 2: "C02-F2", 3: "C02-F3", 4: "C02-F4"}   # 1-3 fixed: a case in one of them is a VIOLATION; 4 open
 RULE = ("documents derived from genuinely signed Responses (Response-signed, assertion-signed, both; plain and "
         "encrypted; two messages, three key pairs, alternative algorithms): complete catalogue = XSW placements "
         "(sibling before/after, Extensions, Advice, ds:Object, SubjectConfirmationData, AttributeValue, StatusDetail; "
@@ -44,6 +44,16 @@ RULE = ("documents derived from genuinely signed Responses (Response-signed, ass
         "others provably behave like xmlsec1 on that run and share its observation (quick tier: a rotating one of them "
         "is evaluated in Coq for every second document, thorough tier: all).  Observed per document and engine: accepted?, reported "
         "fields, and from the xmlsec1 stand-in's log which element was digested under which certificate.  "
+        "Round 5: HOW MANY assertions feed one report - genuine messages answering the SAME request (two subjects, two IdP "
+        "keys, plain / encrypted, a genuine message with one encrypted + one plain assertion) and a pool of things that can "
+        "stand where an assertion is expected (signed, encrypted, unsigned, signed by a stranger, other request, EMPTY "
+        "EncryptedAssertion, EncryptedAssertion holding ciphertext + plain / two ciphertexts / plain only): every ordered "
+        "pair of the 8 main members, every ordered triple of 4, special shapes, random sequences; WHOSE KEY verified - "
+        "messages genuinely signed by the attacker / another federation member x embedded ds:KeyInfo certificate {own, the "
+        "IdP's, none} x whom the signed element names {unknown entity, entity without signing KeyDescriptor, no Issuer on the "
+        "envelope, the genuine IdP} x level, genuine traffic with KeyInfo, under metadata with / without the keyless entity "
+        "and with only_use_keys_in_metadata off (only on documents whose signed elements name an entity with metadata keys).  "
+        "The property checked on the observed output includes: ONE covered element accounts for the whole report.  "
         "non-trivial = distinct (family, policy, accepted, digested-element paths, per-variant outcomes)")
 TRUSTED = ["xmlsec1 stand-in (harness/standin/xmlsec1.py: xmlSecFindNode = first ds:Signature at/below --node-id, "
            "duplicate ID = error, xmldsig.c child-order strictness); the fixed finding C02-F1 depended on these semantics",
@@ -57,7 +67,8 @@ TRUSTED = ["xmlsec1 stand-in (harness/standin/xmlsec1.py: xmlSecFindNode = first
            "translator v2 (harness/py2coq2.py, Base/Py2.v; its not-modelled list: notes/translator_v2.md) re-translates on every "
            "run: response.StatusResponse.issuer, sigver.SecurityContext.correctly_signed_response, "
            "sigver.CryptoBackendXmlSec1.validate_signature, response.AuthnResponse._assertion and the validator block of "
-           "sigver.SecurityContext._check_signature (cut out of the live text by harness/c02.py slice_validators: from "
+           "sigver.SecurityContext._check_signature and the assertion-count test of response.AuthnResponse.parse_assertion "
+           "(its first statement, cut out by harness/c02.py slice_count; validators: cut out by slice_validators: from "
            "`signed_info = item.signature.signed_info` to the `raise SignatureError(error_context)`; the cutting rule is "
            "trusted) - C02/Source2.v proves each equal to what the model says, for all inputs; the encodings of parsed "
            "objects (enc_item ... in C02/Source2.v) are trusted to be what the object model builds (that is C12 / the "
@@ -68,7 +79,8 @@ ASSUMPTIONS = ["ideal digests and signatures (Section hypotheses of C02/Proofs.v
                "correspondence, real RSA/SHA executed by the stand-in)",
                "XML text level (prefixes, entities, whitespace, comments, xpointer URIs) is not in the tree model: "
                "implementation side only",
-               "only_use_keys_in_metadata = True (the default); attribute names from the bundled uri map",
+               "only_use_keys_in_metadata = True (the default; switched off only for documents whose signed elements name an "
+               "entity that has signing keys in the metadata, where it must not matter); attribute names from the bundled uri map",
                "encrypted path: the text against which decrypted assertions are verified (str(response) after "
                "decrypt_keys) is taken from the implementation run as an input of the model"]
 
@@ -100,6 +112,24 @@ POLICIES = {
           "sp_want_assertions_or_response_signed": True},
 }
 ORACLE_POLICY = {"sp_want_response_signed": False, "sp_want_assertions_signed": False}
+
+
+def _round5_policies():
+    """(round 5) configuration variants of the policies above, same signature requirements: "<P>n" = the SP's metadata
+    also knows an IdP WITHOUT a signing KeyDescriptor (https://nokeys.example.org/idp.xml, encryption key only);
+    "<P>m" = no metadata at all (`if self.metadata:` is false in _check_signature; Coq side: empty metadata table);
+    "<P>o" = only_use_keys_in_metadata switched off (used only with documents whose signed elements name an entity that
+    HAS signing keys in the metadata: the metadata keys must then still be the ones that count)"""
+    nokeys = world.idp_descriptor("https://nokeys.example.org/idp.xml", [("idpenc", "encryption")],
+                                  sso=[(world.BINDING_HTTP_REDIRECT, "https://nokeys.example.org/sso/redirect")])
+    md = [world.default_idp_md(), world.default_other_md(), nokeys]
+    for p in ("R", "A", "B", "E"):
+        POLICIES[p + "n"] = dict(POLICIES[p], metadata_xml=md)
+        POLICIES[p + "o"] = dict(POLICIES[p], only_use_keys_in_metadata=False)
+        POLICIES[p + "m"] = dict(POLICIES[p], metadata_xml=[])          # an SP without any metadata: nobody has keys
+
+
+_round5_policies()
 
 # ---------------------------------------------------------------------------- tokens and tables
 TOK = {}        # token -> real text (digest / signature value) or raw EncryptedData XML
@@ -419,28 +449,36 @@ C14N_WC = "http://www.w3.org/2001/10/xml-exc-c14n#WithComments"
 C14N_10 = "http://www.w3.org/TR/2001/REC-xml-c14n-20010315"
 
 
-def msg_spec(n, issuer=world.IDP_ID, aid=None, rid=None, name=None, mail=None):
+SAME = object()
+
+
+def msg_spec(n, issuer=world.IDP_ID, aid=None, rid=None, name=None, mail=None, req=None, r_issuer=SAME):
+    """req: the request the message answers (default: a request of its own, req-<n>); r_issuer: the envelope's Issuer
+    (default: the assertion's; None = no Issuer element, it is optional on a Response)"""
+    req = req or "req-%d" % n
     a = spaccept.good_assertion(
         id=aid or "a-%d" % n, issuer=issuer,
         subject={"name_id": name or "subject-%d" % n,
                  "confirmations": [{"method": render.SCM_BEARER,
-                                    "data": {"recipient": world.SP_ACS_POST, "in_response_to": "req-%d" % n,
+                                    "data": {"recipient": world.SP_ACS_POST, "in_response_to": req,
                                              "not_on_or_after": env.iso(NOW + 300)}}]},
         authn_statements=[{"authn_instant": env.iso(NOW - 10 * n), "session_index": "s-%d" % n}],
         attributes=[(MAIL, render.NF_URI, "mail", [mail or "user%d@example.org" % n]),
                     (GIVEN, render.NF_URI, "givenName", ["Given%d" % n])])
-    r = spaccept.good_response(id=rid or "r-%d" % n, in_response_to="req-%d" % n, issuer=issuer)
+    r = spaccept.good_response(id=rid or "r-%d" % n, in_response_to=req, issuer=issuer if r_issuer is SAME else r_issuer)
     return r, a
 
 
-def _template(ref_id, algs="sha256", c14n=render.EXC_C14N, transforms=(render.ENVELOPED, render.EXC_C14N), nrefs=1):
+def _template(ref_id, algs="sha256", c14n=render.EXC_C14N, transforms=(render.ENVELOPED, render.EXC_C14N), nrefs=1, keyinfo=None):
+    """keyinfo: name of the key pair whose certificate is embedded as ds:KeyInfo/ds:X509Data (None: no KeyInfo)"""
     s, d = SIG_ALGS[algs]
     extra = ""
     if nrefs > 1:
         tr = "".join('<ds:Transform Algorithm="%s"/>' % t for t in transforms)
         extra = ('<ds:Reference URI="#%s"><ds:Transforms>%s</ds:Transforms><ds:DigestMethod Algorithm="%s"/>'
                  "<ds:DigestValue/></ds:Reference>" % (ref_id, tr, d)) * (nrefs - 1)
-    return render.signature_template(ref_id, None, sig_alg=s, dig_alg=d, c14n=c14n, transforms=transforms, extra_refs=extra)
+    return render.signature_template(ref_id, ("x509", keyinfo) if keyinfo else None, sig_alg=s, dig_alg=d, c14n=c14n,
+                                     transforms=transforms, extra_refs=extra)
 
 
 def _record_signature(tree, elem_path, key):
@@ -473,7 +511,7 @@ def advice_xml(n):
 
 
 def build_message(n, mode, key, issuer=world.IDP_ID, algs="sha256", c14n=render.EXC_C14N,
-                  transforms=(render.ENVELOPED, render.EXC_C14N), nrefs=1, advice=False, **kw):
+                  transforms=(render.ENVELOPED, render.EXC_C14N), nrefs=1, advice=False, keyinfo=None, **kw):
     """mode: R | A | B (plain), ER | EA | EB (assertion encrypted for the SP).  Returns the abstract tree."""
     install()
     r, a = msg_spec(n, issuer=issuer, **kw)
@@ -484,10 +522,10 @@ def build_message(n, mode, key, issuer=world.IDP_ID, algs="sha256", c14n=render.
         a["advice"] = advice_xml(n)
         a["attributes"] = a["attributes"][1:]          # the assertion itself says givenName only
     if sign_a:
-        a["sig_template"] = _template(a["id"], algs, c14n, transforms, nrefs)
+        a["sig_template"] = _template(a["id"], algs, c14n, transforms, nrefs, keyinfo)
     r["assertions_xml"] = [render.assertion(a)]
     if sign_r:
-        r["sig_template"] = _template(r["id"], algs, c14n, transforms, nrefs)
+        r["sig_template"] = _template(r["id"], algs, c14n, transforms, nrefs, keyinfo)
     xml = render.response(r)
     tree = None
     if sign_a:
@@ -512,6 +550,86 @@ def build_message(n, mode, key, issuer=world.IDP_ID, algs="sha256", c14n=render.
         _record_signature(tree, (), key)
     assert parse(ser(tree)) == tree
     return tree
+
+
+def build_pair(n_enc, n_plain, key, sign_r, sign_a, req="req-1"):
+    """a genuine message with TWO assertions answering one request: the first encrypted for the SP, the second plain
+    (what an IdP that adds an encrypted assertion next to a plain one sends).  sign_r / sign_a: the Response / both
+    assertions are signed."""
+    install()
+    r, a1 = msg_spec(n_enc, req=req)
+    _, a2 = msg_spec(n_plain, req=req)
+    r["id"] = "r-%d%d" % (n_enc, n_plain)
+    if sign_a:
+        a1["sig_template"] = _template(a1["id"])
+        a2["sig_template"] = _template(a2["id"])
+    r["assertions_xml"] = [render.assertion(a1), render.assertion(a2)]
+    if sign_r:
+        r["sig_template"] = _template(r["id"])
+    xml = render.response(r)
+    tree = parse(xml)
+    if sign_a:
+        for a in (a1, a2):
+            xml = render.sign_xml(xml, key, render.A_ELEM, a["id"])
+        tree = parse(xml)
+        for ap in [p for p, nd in walk(tree) if nd[0] == "saml:Assertion" and len(p) == 1]:
+            _record_signature(tree, ap, key)
+    plain_a = copy.deepcopy([nd for p, nd in walk(tree) if nd[0] == "saml:Assertion"][0])
+    xml = render.encrypt_assertion_in_response(xml, "sp")
+    ed = ET.fromstring(xml.encode("utf-8")).find(".//{%s}EncryptedData" % PFX["xenc"])
+    ed.tail = None
+    tok = _new_tok("e", _cipher_key(ed))
+    TOK[tok] = ET.tostring(ed, encoding="unicode")
+    PLAIN[tok] = plain_a
+    if sign_r:
+        xml = render.sign_xml(xml, key, render.R_ELEM, r["id"])
+    tree = parse(xml)
+    if sign_r:
+        _record_signature(tree, (), key)
+    assert parse(ser(tree)) == tree
+    return tree
+
+
+UNKNOWN_ID = "https://unknown.example.org/idp.xml"     # no entity of that name in the SP's metadata
+NOKEYS_ID = "https://nokeys.example.org/idp.xml"       # in the metadata of the "n" policies, WITHOUT a signing key
+# (round 5) everything below was added after the other messages: their tokens / names in C02Base.v stay what they were
+ROUND5 = ["m4A", "m4EA", "m4R", "m5A", "pairR", "pairA", "pairB", "m1A_ki", "m1R_ki",
+          "kA_unk", "kR_noiss", "kR_unk", "kB_unk", "kEA_unk", "kA_nokeys", "kR_nokeys", "kA_unk_noki", "kA_unk_idpki",
+          "kA_idp", "kR_idp", "oA_unk", "oR_noiss"]
+
+
+def base_round5(b):
+    # more genuine answers to request req-1 (another subject, another session): the material of a splice
+    b["m4A"] = build_message(4, "A", "idp", req="req-1")
+    b["m4EA"] = build_message(4, "EA", "idp", req="req-1")
+    b["m4R"] = build_message(4, "R", "idp", req="req-1")
+    b["m5A"] = build_message(5, "A", "idp2", req="req-1")
+    # genuine messages with two assertions (first encrypted, second plain)
+    b["pairR"] = build_pair(16, 17, "idp", True, False)
+    b["pairA"] = build_pair(16, 17, "idp", False, True)
+    b["pairB"] = build_pair(16, 17, "idp", True, True)
+    # the usual shape of real traffic: the signer's certificate rides in ds:KeyInfo
+    b["m1A_ki"] = build_message(1, "A", "idp", keyinfo="idp")
+    b["m1R_ki"] = build_message(1, "R", "idp", keyinfo="idp")
+    # messages made and genuinely signed by somebody else, who embeds a certificate in ds:KeyInfo, and whose signed
+    # element names an entity for which the SP has no signing key in its metadata (unknown entity, entity without
+    # signing KeyDescriptor, no Issuer on the envelope) - or a known one
+    ev = dict(aid="a-9", rid="r-9", name="admin", mail="admin@example.org")
+    b["kA_unk"] = build_message(1, "A", "attacker", issuer=UNKNOWN_ID, keyinfo="attacker", **ev)
+    b["kR_noiss"] = build_message(1, "R", "attacker", r_issuer=None, keyinfo="attacker", **ev)
+    b["kR_unk"] = build_message(1, "R", "attacker", issuer=UNKNOWN_ID, keyinfo="attacker", **ev)
+    b["kB_unk"] = build_message(1, "B", "attacker", issuer=UNKNOWN_ID, keyinfo="attacker", **ev)
+    b["kEA_unk"] = build_message(1, "EA", "attacker", issuer=UNKNOWN_ID, keyinfo="attacker", **ev)
+    b["kA_nokeys"] = build_message(1, "A", "attacker", issuer=NOKEYS_ID, keyinfo="attacker", **ev)
+    b["kR_nokeys"] = build_message(1, "R", "attacker", issuer=NOKEYS_ID, keyinfo="attacker", **ev)
+    b["kA_unk_noki"] = build_message(1, "A", "attacker", issuer=UNKNOWN_ID, **ev)
+    b["kA_unk_idpki"] = build_message(1, "A", "attacker", issuer=UNKNOWN_ID, keyinfo="idp", **ev)
+    b["kA_idp"] = build_message(1, "A", "attacker", keyinfo="attacker", **ev)
+    b["kR_idp"] = build_message(1, "R", "attacker", keyinfo="attacker", **ev)
+    # a federation member (its key IS in the metadata, for its own entity) speaking under another name
+    ev = dict(aid="a-8", rid="r-8", name="admin", mail="admin@example.org")
+    b["oA_unk"] = build_message(1, "A", "other", issuer=UNKNOWN_ID, keyinfo="other", **ev)
+    b["oR_noiss"] = build_message(1, "R", "other", r_issuer=None, keyinfo="other", **ev)
 
 
 _BASE = {}
@@ -546,6 +664,7 @@ def base():
     b["evilA_other"] = build_message(1, "A", "other", aid="a-8", rid="r-8", name="admin", mail="admin@example.org")
     b["otherB"] = build_message(1, "B", "other", issuer=world.OTHER_ID, aid="a-7", rid="r-7", name="guest",
                                 mail="guest@other.example.org")
+    base_round5(b)
     return b
 
 
@@ -738,6 +857,41 @@ def slice_validators():
     return out
 
 
+def slice_count():
+    """The assertion-count test of AuthnResponse.parse_assertion as a function of its own, cut out of the CURRENT source
+    text on every run: the first statement of the method (after the docstring), `if self.context == "AuthnQuery": ... else:
+    ... raise InvalidAssertion(...)`.  The rest of the method (decryption loops, logging) is outside the translator's
+    subset.  When the statement is not found where it is expected the file holds no function: poisoned definition."""
+    import ast
+
+    path = os.path.join(env.SRC, "saml2", "response.py")
+    out = os.path.join(SLICE_DIR, "response_parse_assertion_count.py")
+    os.makedirs(SLICE_DIR, exist_ok=True)
+    text = "# slice not found\n"
+    try:
+        with open(path) as f:
+            src = f.read()
+        from harness import py2coq2
+
+        fn = py2coq2.find_function(ast.parse(src), "AuthnResponse.parse_assertion")
+
+        def is_count(st):
+            t = st.test if isinstance(st, ast.If) else None
+            return (isinstance(t, ast.Compare) and isinstance(t.left, ast.Attribute) and t.left.attr == "context"
+                    and isinstance(t.left.value, ast.Name) and t.left.value.id == "self")
+
+        body = [st for st in fn.body if not (isinstance(st, ast.Expr) and isinstance(st.value, ast.Constant))]
+        if body and is_count(body[0]) and not any(is_count(st) for st in body[1:]):
+            st = body[0]
+            lines = src.splitlines()[st.lineno - 1:st.end_lineno]
+            text = ("# cut from saml2/response.py AuthnResponse.parse_assertion, lines %d-%d\n"
+                    "def parse_assertion__count(self):\n%s\n" % (st.lineno, st.end_lineno, "\n".join(lines)))
+    except Exception as e:  # fail closed
+        text = "# slice failed: %s\n" % type(e).__name__
+    common.write_if_changed(out, text)
+    return out
+
+
 def src2_items():
     S = os.path.join(env.SRC, "saml2")
     cn = lambda a: '(p2_attr_x %s "c_node_name")' % a[0]           # class_name(x): the node name of the instance's class
@@ -778,6 +932,9 @@ def src2_items():
           "globals": {"ALLOWED_CANONICALIZATIONS": "allowed_c14n", "TRANSFORM_ENVELOPED": "transform_enveloped"},
           # set.intersection(list): the members of the set that occur in the list (a set: no duplicates)
           "calls": {"ALLOWED_TRANSFORMS.intersection": lambda a: "(p2_listcomp allowed_transforms (fun x_ => p2_in x_ %s) (fun x_ => x_))" % a[0]}}),
+        (slice_count(), "parse_assertion__count",
+         {"name": "src2_count", "params": ["self"], "attr_errors": True, "lenient_raise_args": True,
+          "exc_parents": dict(SRC2_EXC, InvalidAssertion=["Exception"])}),
     ]
 
 
@@ -1501,7 +1658,8 @@ def generate(ctx):
     plain_modes = ["m1R", "m1A", "m1B"]
     # 0. the genuine messages under every policy
     for k, d in B.items():
-        add("genuine", k, copy.deepcopy(d))
+        if k not in ROUND5:
+            add("genuine", k, copy.deepcopy(d))
     # 1. XSW catalogue
     for bname in plain_modes:
         for where in PLACES:
@@ -1566,7 +1724,7 @@ def generate(ctx):
     n_catalogue = len(cases)
     # 7. seeded random surgery
     n_random = 20000 if ctx.thorough else 1500
-    seeds = [k for k in B if k not in ("evilB_attacker",)]
+    seeds = [k for k in B if k not in ("evilB_attacker",) and k not in ROUND5]     # round-5 messages: families 9-11
     catalogue_docs = [c["doc"] for c in cases if c["family"] in ("xsw-a", "xsw-r", "splice")]
     for i in range(n_random):
         r = ctx.rng.random()
@@ -1606,11 +1764,111 @@ def generate(ctx):
         if size(d) > 400:
             continue
         cases.append({"family": "random-eng", "name": "+".join(desc), "policy": rng2.choice(["R", "A", "A", "B", "E"]), "doc": d})
+    round5_families(ctx, cases, add)
     if ctx.thorough:
         for c in cases:
             if c["family"] != "random":
                 c["all_engines"] = True
     return cases
+
+
+def multi_pool():
+    """what can stand as a child of the Response where an assertion is expected: genuinely signed assertions that answer
+    the SAME request (two subjects, two keys of the IdP), their encrypted forms, an unsigned one, one signed by a
+    stranger, one answering another request, an EncryptedAssertion element without content, and EncryptedAssertion
+    elements holding more than one thing (ciphertext + plain assertion, two ciphertexts, a plain assertion only)"""
+    B = base()
+    a_of = lambda k: copy.deepcopy([x for x in B[k][3] if x[0] == "saml:Assertion"][0])
+    e_of = lambda k: copy.deepcopy([x for x in B[k][3] if x[0] == "saml:EncryptedAssertion"][0])
+    pool = {"P1": a_of("m1A"), "P4": a_of("m4A"), "P5": a_of("m5A"), "E4": e_of("m4EA"), "E1": e_of("m1EA"),
+            "U4": a_of("m4R"), "X9": a_of("evilA_attacker"), "O2": a_of("m2A"), "Z": T("saml:EncryptedAssertion")}
+    pool["H41"] = T("saml:EncryptedAssertion", kids=e_of("m4EA")[3] + [a_of("m1A")])
+    pool["H14"] = T("saml:EncryptedAssertion", kids=[a_of("m1A")] + e_of("m4EA")[3])
+    pool["D41"] = T("saml:EncryptedAssertion", kids=e_of("m4EA")[3] + e_of("m1EA")[3])
+    pool["HP4"] = T("saml:EncryptedAssertion", kids=[a_of("m4A")])
+    return pool
+
+
+def with_children(envelope, children):
+    d = copy.deepcopy(envelope)
+    d[3] = [k for k in d[3] if k[0] not in ("saml:Assertion", "saml:EncryptedAssertion")] + [copy.deepcopy(c) for c in children]
+    return d
+
+
+def multi_docs():
+    """HOW MANY assertions feed one report: every ordered pair of different pool members, every ordered triple of
+    {P1, P4, E4, Z}, and the shapes around them (nested holders, repeated members, four children)"""
+    import itertools
+
+    B = base()
+    pool = multi_pool()
+    out = []
+    main = ["P1", "P4", "P5", "E4", "E1", "U4", "X9", "Z"]
+    seqs = [list(x) for x in itertools.permutations(main, 2)] + [list(x) for x in itertools.permutations(["P1", "P4", "E4", "Z"], 3)]
+    seqs += [["H41"], ["H14"], ["D41"], ["HP4"], ["P1", "HP4"], ["HP4", "P1"], ["P1", "H41"], ["P5", "D41"], ["P1", "P4", "HP4"],
+             ["P1", "P4", "P5"], ["P1", "P4", "P5", "Z"], ["P1", "P4", "E1"], ["P1", "P4", "Z", "Z"], ["P1", "P1", "Z"],
+             ["P4", "P1", "O2", "Z"], ["P1", "O2", "Z"], ["P1", "X9", "Z"], ["X9", "P1", "Z"], ["P1", "U4", "Z"], ["E4", "E1", "P1"],
+             [], ["Z"], ["Z", "Z"]]
+    for sq in seqs:
+        out.append(("m1A[%s]" % ",".join(sq), with_children(B["m1A"], [pool[k] for k in sq])))
+    # the same under the envelope of a Response-signed message (the envelope signature no longer matches) and of the
+    # genuine two-assertion messages
+    for sq in (["P1", "P4", "Z"], ["P1", "E4"], ["P4", "P1"]):
+        out.append(("m1R[%s]" % ",".join(sq), with_children(B["m1R"], [pool[k] for k in sq])))
+    for name in ("pairR", "pairA", "pairB"):
+        d = copy.deepcopy(B[name])
+        d[3].append(copy.deepcopy(pool["P1"]))
+        out.append((name + "+P1", d))
+        d = copy.deepcopy(B[name])
+        ai = [i for i, k in enumerate(d[3]) if k[0] in ("saml:Assertion", "saml:EncryptedAssertion")]
+        d[3][ai[0]], d[3][ai[1]] = d[3][ai[1]], d[3][ai[0]]
+        out.append((name + ":swapped", d))
+    return out
+
+
+def round5_families(ctx, cases, add):
+    """(round 5) two dimensions the families above never explored: how many assertions feed one report, and whose key a
+    verifying signature was made with when the signed element names nobody the metadata has signing keys for"""
+    B = base()
+    quick = not ctx.thorough
+    # 9. the round-5 messages as they are
+    for k in ROUND5:
+        add("genuine", k, copy.deepcopy(B[k]), ("R", "A", "E") if quick else ("R", "A", "B", "E"))
+    # 10. several assertions in one Response
+    for nm, d in multi_docs():
+        pair = nm.startswith("m1A[") and nm.count(",") == 1 and "H" not in nm and "D" not in nm
+        add("multi", nm, d, (("A",) if pair else ("A", "E")) if quick else ("R", "A", "B", "E"))
+    rng3 = __import__("random").Random(ctx.seed * 7919 + 5)
+    pool = multi_pool()
+    names = sorted(pool)
+    envelopes = ["m1A", "m1A", "m4A", "m1R", "pairA", "m1B"]
+    for i in range(1500 if ctx.thorough else 80):
+        sq = [rng3.choice(names) for _ in range(rng3.choice([1, 2, 2, 3, 3, 4]))]
+        d = with_children(B[rng3.choice(envelopes)], [pool[k] for k in sq])
+        desc = ",".join(sq)
+        if rng3.random() < 0.25:
+            d, ds_ = random_surgery(rng3, d, B[rng3.choice(ROUND5)], 1, True)
+            desc += "+" + ds_
+        cases.append({"family": "multi-random", "name": desc, "policy": rng3.choice(["A", "A", "E", "E", "R", "B"]),
+                      "doc": normalise_enc(d)})
+    # 11. foreign signer x embedded certificate x whom the signed element names, under the metadata / key-source variants
+    keyed = [k for k in ROUND5 if k[0] in "ko"]
+    for k in keyed:
+        add("keys", k, copy.deepcopy(B[k]), ("Rn", "An") if quick else ("Rn", "An", "Bn", "En"))
+    for k in ("m1A", "m1R", "m1B", "m1A_ki", "m1R_ki", "kA_idp", "kR_idp", "evilA_attacker", "evilB_attacker", "pairB", "otherB"):
+        add("keys", k, copy.deepcopy(B[k]), ("Ro", "Ao") if quick else ("Ro", "Ao", "Bo", "Eo"))
+    for k in ("m1A", "m1R", "m1B", "m1A_ki", "m1R_ki", "kA_unk", "kR_noiss", "kA_idp", "oR_noiss"):
+        add("keys", k, copy.deepcopy(B[k]), ("Rm", "Am") if quick else ("Rm", "Am", "Bm", "Em"))
+    # the foreign signed element inside / around genuine traffic: genuine envelope + foreign assertion, foreign
+    # envelope + genuine assertion, wrapping catalogue applied to the foreign messages
+    a_of = lambda name: [copy.deepcopy(x) for x in B[name][3] if x[0] == "saml:Assertion"]
+    for env_, inner in (("m1A", "kA_unk"), ("m1R", "kA_unk"), ("kR_noiss", "m1A"), ("kR_unk", "m1A"), ("kA_unk", "m1A"),
+                        ("kR_noiss", "kA_unk"), ("oR_noiss", "m1A"), ("m1A", "oA_unk")):
+        add("keys", "%s<-assertion(%s)" % (env_, inner), with_children(B[env_], a_of(inner)), ("R", "A", "E"))
+    for k in ("kA_unk", "kR_noiss", "kB_unk"):
+        for where, idp, sigp in (("extensions", "fresh", "moved+decoy"), ("advice", "fresh", "copied"), ("after", "same", "copied")):
+            f = xsw_response if k[1] == "R" else xsw_assertion
+            add("keys", "%s:xsw:%s:%s:%s" % (k, where, idp, sigp), f(B[k], where, idp, sigp), ("R", "A"))
 
 
 # ---------------------------------------------------------------------------- observation
@@ -1968,12 +2226,14 @@ def coq_case(case, obs):
     ensure_interned()
     doc, local = resolve_tokens_only(case["doc"])
     pol = POLICIES[case["policy"]]
+    # the "m" policies: an SP without metadata
+    world_term = "(@nil (string * list nat), snd C02Base.world)" if case["policy"].endswith("m") else "C02Base.world"
     members = []
     for run in obs["runs"]:
         digs = "[%s]" % "; ".join("(%s, %s, %s, %d%%nat)" % (cq(bool(w)), cq_path(t), cq_path(s), k) for w, t, s, k in run["digs"])
         for ids, sel in run["engines"]:
-            members.append("C02.Corr.mk (C02.Corr.eng %d %d) C02Base.world %s %s %s %s %s %s %s %s %s C02Base.tabs %s %s %s" % (
-                ENG_NUM[ids], ENG_NUM[sel],
+            members.append("C02.Corr.mk (C02.Corr.eng %d %d) %s %s %s %s %s %s %s %s %s %s C02Base.tabs %s %s %s" % (
+                ENG_NUM[ids], ENG_NUM[sel], world_term,
                 cq(bool(pol.get("sp_want_response_signed"))), cq(bool(pol.get("sp_want_assertions_signed"))),
                 cq(bool(pol.get("sp_want_assertions_or_response_signed", False))),
                 cq(bool(obs["content_ok"])), cq(bool(obs["schema_root"])), cq_bools(obs["schema_as"]), cq_bools(run["schema_enc"]),
